@@ -171,8 +171,11 @@ def lib_wire(s):
     t_nfc = ';'.join('%x.%x=%s' % (ord(c), ord(d), wire(r)) for (c, d), r in sorted(nfc.items()))
     return '|'.join([wire(D['ds']._latex_today()), t_up, t_nfc])
 
+USERDB_DOCS = ['Some \\emph{important} text.', '\\emph', '\\textbf\\emph{x}', '$a~\\emph{b}$ \\begin{quote}q\\end{quote}',
+               '\\begin{center}c \\textit{i}\\end{center}~\\alpha\\beta x', '\\textbf', '\\begin{center}', '~~', '\\emph{\\textbf{\\textit{}}}']
+
 def to_line(c):
-    if c.get('deep'):
+    if c.get('deep') or c.get('userdb'):
         return None
     if c['o'].get('fill') is not None:
         return None
@@ -182,12 +185,48 @@ def to_line(c):
 
 # ---------------------------------------------------------------- implementation + oracle
 
+class _CallableRepl(object):
+    """a replacement given as an object with __call__ (no __code__, no __name__)"""
+    def __init__(self, tag): self.tag = tag
+    def __call__(self, node, l2tobj):
+        return '<%s:%s>' % (self.tag, l2tobj.nodelist_to_text(getattr(node, 'nodelist', None) or []))
+
+def _repl_fn(tag, node):
+    return '(%s)' % tag
+
+def _repl_fn2(tag, n, l2tobj):
+    return '[%s %s]' % (tag, l2tobj.nodelist_to_text([a for a in (n.nodeargd.argnlist if n.nodeargd else []) if a is not None]))
+
+_USERDB = []
+def user_textdb():
+    """the default text database extended the documented way with replacement callables of every kind Python offers:
+    plain function, lambda, functools.partial (with and without the l2tobj parameter), callable instance, bound method"""
+    if not _USERDB:
+        import functools
+        from pylatexenc import latex2text
+        db = latex2text.get_default_latex_context_db()
+        inst = _CallableRepl('obj')
+        db.add_context_category('user-callables', prepend=True,
+            macros=[latex2text.MacroTextSpec('emph', simplify_repl=functools.partial(_repl_fn2, 'emph')),
+                    latex2text.MacroTextSpec('textbf', simplify_repl=functools.partial(_repl_fn, 'bf')),
+                    latex2text.MacroTextSpec('alpha', simplify_repl=lambda n: 'A'),
+                    latex2text.MacroTextSpec('beta', simplify_repl=functools.partial(lambda n: 'B')),
+                    latex2text.MacroTextSpec('textit', simplify_repl=inst.__call__)],
+            environments=[latex2text.EnvironmentTextSpec('center', simplify_repl=inst),
+                          latex2text.EnvironmentTextSpec('quote', simplify_repl=functools.partial(_repl_fn, 'quote'))],
+            specials=[latex2text.SpecialsTextSpec('~', simplify_repl=functools.partial(_repl_fn, 'tilde'))])
+        _USERDB.append(db)
+    return _USERDB[0]
+
 def run_impl(c):
     from pylatexenc.latex2text import LatexNodes2Text
     o = c['o']
     fail = None
     try:
-        l2t = LatexNodes2Text(**opts_kwargs(o))
+        kw = opts_kwargs(o)
+        if c.get('userdb'):
+            kw['latex_context'] = user_textdb()
+        l2t = LatexNodes2Text(**kw)
         r = l2t.latex_to_text(c['s'])
         if not isinstance(r, str):
             out = 'NOT-STR ' + type(r).__name__
@@ -260,6 +299,13 @@ def cases(tier, rng):
     D = dbinfo()
     quick = tier == 'quick'
     sweep = option_sweep()
+    # (0) a user database with replacement callables of every kind (oracle only)
+    for s in USERDB_DOCS:
+        for o in sweep[::3]:
+            yield {'s': s, 'o': o, 'userdb': True}
+    for _ in range(300 if quick else 6000):
+        s = gen.soup(rng, gen.ATOMS_DEFAULT + ['\\emph', '\\textbf', '\\textit', '\\alpha', '\\beta', '\\begin{center}', '\\end{center}', '\\begin{quote}', '\\end{quote}', '~'], 7)
+        yield {'s': s, 'o': rand_opts(rng), 'userdb': True}
     # (a) bounded-exhaustive atom strings
     k_core = 3 if quick else 4
     for s in gen.exhaustive(gen.CORE_ATOMS, k_core):
